@@ -2,7 +2,7 @@
 C07 case generator: boundary lattice × representations × operators, plus seeded
 random operands.  Emits one `Case` per line (input, model V/R, spec V, tags).
 -/
-import GPy.C07.Spec
+import GPy.C07.Text
 namespace GPy.C07
 
 def Err.py : Err → String
@@ -117,6 +117,52 @@ def randObj (r : Rng) : Rng × Obj :=
   let (r, i) := r.nat reps.length
   (r, reps[i]!)
 
+/-- one-line encoding of a text operand -/
+def encText (cs : List Char) : String :=
+  String.join (cs.map fun c => if c == ' ' then "\\s" else if c == '\t' then "\\t" else if c == '\n' then "\\n" else c.toString)
+
+def caseInt (str : List Char) (base : Nat) : Case :=
+  let m := intFromString str base
+  let sp := specIntFromString str base
+  { input := s!"int {base} [{encText str}]",
+    modelV := match m with | some o => objV o | none => "E:ValueError",
+    modelR := match m with | some o => objR o | none => "-",
+    specV := match sp with | some v => toString v | none => "E:ValueError",
+    tags := (if str.length > 3 then ["nt"] else []) }
+
+def caseRender (kind : String) (a : Obj) : Option Case :=
+  match denote a with
+  | some v => if isBool a then none else
+    some { input := s!"render {kind} {encObj a}", modelV := modelRender kind v, modelR := "", specV := specRender kind v,
+           tags := if big? v then ["nt"] else [] }
+  | none => none
+
+def textCases : List Case := Id.run do
+  let ws : List String := ["", " ", "\t "]
+  let signs : List String := ["", "+", "-", "+-", "--", "-+"]
+  let inner : List String := ["", "-", "+"]   -- a sign after the base prefix
+  let prefs : List String := ["", "0x", "0X", "0o", "0O", "0b", "0B"]
+  let digits : List String := ["", "0", "00", "1", "7", "9", "10", "017", "101", "ff", "FF", "z", "Z1", "12a", "1_0", "1 0",
+    "777777777777", "7777777777777", "ffffffffffff", "fffffffffffff", "zzzzzzzzzzzz", "zzzzzzzzzzzzz",
+    "999999999999999999", "1000000000000000000", "9223372036854775807", "9223372036854775808", "9223372036854775809",
+    "18446744073709551616", "7fffffffffffffff", "8000000000000000", "ffffffffffffffffffffffffffffffff",
+    "111111111111111111111111111111111111111111111111111111111111111", "1000000000000000000000000000000000000000000000000000000000000000",
+    "1000000000000000000000", "777777777777777777777", "000000000000000000000000000001"]
+  let bases : List Nat := [0, 2, 8, 10, 16, 36]
+  let mut out : List Case := []
+  for w in ws do
+    for sg in signs do
+      for pf in prefs do
+        for d in digits do
+          for b in bases do
+            -- keep the product moderate: whitespace variants only with the simplest sign/prefix
+            if w == "" || (sg.length ≤ 1 && pf.length == 0) then
+              out := caseInt (w ++ sg ++ pf ++ d ++ w).toList b :: out
+            if w == "" && sg.length ≤ 1 && pf.length > 0 && d.length ≤ 3 then
+              for i in inner do
+                if i != "" then out := caseInt (sg ++ pf ++ i ++ d).toList b :: out
+  return out.reverse
+
 def emit (c : Option Case) : IO Unit :=
   match c with
   | some c => IO.println c.line
@@ -142,6 +188,10 @@ def genMain (tier : String) (seed : Nat) : IO Unit := do
   for a in pbases do
     for b in exps do
       for c in mods do emit (casePow a b c)
+  -- text conversions
+  for c in textCases do IO.println c.line
+  for a in objs do
+    for k in ["str", "hex", "oct", "bin"] do emit (caseRender k a)
   -- seeded random operands, 1..192 bits
   let n := if tier == "thorough" then 60000 else 6000
   let mut r : Rng := ⟨seed.toUInt64⟩
@@ -156,6 +206,7 @@ def genMain (tier : String) (seed : Nat) : IO Unit := do
       else emit (caseBin op a b)
     emit (caseDivmod a b)
     for op in UnOp.all do emit (caseUn op a)
+    for kd in ["str", "hex", "oct", "bin"] do emit (caseRender kd a)
     emit (casePow a (.int ((k % 9 : Nat) : Int)) b)
     emit (casePow a (.int ((k % 9 : Nat) : Int)) .none)
 
